@@ -290,6 +290,8 @@ impl SpillPoolSink {
 
         if max_file_size_reached {
             // Finish the IPC writer
+            #[cfg(datafusion_verif)]
+            datafusion_common::verif::point("sp_w_rotate", &[]);
             let finished = match file_shared.writer.take() {
                 Some(mut writer) => writer.finish().map(|_| ()),
                 None => Ok(()),
